@@ -1,4 +1,5 @@
 mod c01;
+mod c03;
 mod convert;
 mod ctx;
 mod findings;
@@ -78,6 +79,7 @@ fn real_main(args: Vec<String>) -> i32 {
             let r = match prop.as_str() {
                 "C01" => c01::run(&ctx, false),
                 "C02" => c01::run(&ctx, true),
+                "C03" => c03::run(&ctx),
                 _ => Err(format!("no check for {}", prop)),
             };
             match r {
